@@ -29,7 +29,7 @@ Proof.
   assert (W : winv c g v (owner s)) by (unfold Inv in H; rewrite M in H; exact H).
   destruct (next_status (procs (k s))) as [[e ps]|].
   - destruct (wait_body (set_procs (k s) ps) g pids w e) as [k' w'].
-    destruct (negb (is_cont e) && (length pids <=? w')%nat).
+    destruct (negb (is_cont e) && (length pids <=? length w')%nat).
     + eapply finish_inv; eauto.
     + apply IH. unfold Inv; cbn. exact W.
   - destruct (all_gone (procs (k s))); [eapply finish_inv; eauto | exact H].
@@ -45,15 +45,15 @@ Qed.
 Lemma end_of_line_inv c k0 ow : ow = c_sh c -> Inv c (end_of_line k0 ow).
 Proof. intro; unfold Inv, end_of_line; cbn; auto. Qed.
 
-Lemma launch_inv c s pids bg tc jn :
-  md s = AtPrompt -> Inv c s -> Inv c (launch c s pids bg tc jn).
+Lemma launch_inv c s pids bg :
+  md s = AtPrompt -> Inv c s -> Inv c (launch c s pids bg).
 Proof.
   intros M H. assert (O : owner s = c_sh c) by (unfold Inv in H; rewrite M in H; exact H).
   unfold launch. destruct pids as [|p0 rest]; auto.
   destruct bg.
-  - apply end_of_line_inv. rewrite andb_false_r. cbn. exact O.
+  - apply end_of_line_inv. cbn [negb]. rewrite andb_false_r. cbn. exact O.
   - apply enter_wait_inv. unfold winv.
-    destruct (c_hasterm c && c_isatty c && negb false && tc); auto.
+    match goal with |- context [if ?b then _ else _] => destruct b end; auto.
 Qed.
 
 Lemma do_fg_inv c s arg pick : md s = AtPrompt -> Inv c s -> Inv c (do_fg c s arg pick).
@@ -131,9 +131,6 @@ Proof.
 Qed.
 
 (** ---------- while waiting on J the owner is gid J, when tcsetpgrp at launch succeeds *)
-Definition tc_of (a : action) : bool :=
-  match a with ALaunch _ _ tc _ => tc | _ => true end.
-Definition all_tc (acts : list action) : bool := forallb tc_of acts.
 Definition tty (c : cfg) : bool := c_hasterm c && c_isatty c.
 
 Definition Given (s : st) : Prop :=
@@ -148,7 +145,7 @@ Proof.
   destruct (md s) as [|g pids w v] eqn:M; auto.
   destruct (next_status (procs (k s))) as [[e ps]|].
   - destruct (wait_body (set_procs (k s) ps) g pids w e) as [k' w'].
-    destruct (negb (is_cont e) && (length pids <=? w')%nat).
+    destruct (negb (is_cont e) && (length pids <=? length w')%nat).
     + apply finish_given.
     + apply IH. unfold Given in *; cbn. rewrite M in H. exact H.
   - destruct (all_gone (procs (k s))); [apply finish_given | unfold Given; rewrite M; unfold Given in H; rewrite M in H; exact H].
@@ -164,16 +161,22 @@ Qed.
 Lemma eol_given k0 ow : Given (end_of_line k0 ow).
 Proof. unfold Given, end_of_line; cbn; auto. Qed.
 
-Lemma step_given c s a : tty c = true -> tc_of a = true -> Given s -> Given (step c s a).
+Lemma group_exists_launch p0 rest ps : group_exists p0 (ps ++ stages p0 (p0 :: rest)) = true.
 Proof.
-  intros T A H.
+  unfold group_exists. rewrite existsb_app. apply orb_true_iff. right.
+  cbn. rewrite Z.eqb_refl. reflexivity.
+Qed.
+
+Lemma step_given c s a : tty c = true -> Given s -> Given (step c s a).
+Proof.
+  intros T H.
   assert (CL : Given (clear s)) by (unfold Given, clear in *; cbn; exact H).
   assert (KN : forall f, Given (kernel c s f)).
   { intro f. unfold kernel, settle_all. apply settle_given. unfold Given in *; cbn; exact H. }
   destruct a; cbn [step]; unfold typed, key; destruct (md s) eqn:M; auto; try apply eol_given.
   - unfold launch. destruct pids as [|p0 rest]; [unfold Given; rewrite M; auto|].
     destruct bg; [apply eol_given|]. apply enter_wait_given.
-    cbn in A. unfold tty in T. rewrite T, A. reflexivity.
+    unfold tty in T. rewrite T, group_exists_launch. reflexivity.
   - unfold do_fg. destruct (tab (k s)); [apply eol_given|].
     destruct (find_job _ arg pick); [|apply eol_given].
     match goal with |- context [if ?b then _ else _] => destruct b end;
@@ -183,18 +186,18 @@ Proof.
   - unfold do_jobs; cbn. destruct (tab (k s)); apply eol_given.
 Qed.
 
-Lemma fold_given c acts : tty c = true -> all_tc acts = true ->
+Lemma fold_given c acts : tty c = true ->
   forall s, Given s -> Given (fold_left (step c) acts s).
 Proof.
-  intros T. induction acts as [|a r IH]; intros A s H; cbn; auto.
-  cbn in A. apply andb_true_iff in A as [A1 A2]. apply IH; auto. apply step_given; auto.
+  intros T. induction acts as [|a r IH]; intros s H; cbn; auto.
+  apply IH; auto. apply step_given; auto.
 Qed.
 
 Theorem wait_owner c acts g pids w v :
-  tty c = true -> all_tc acts = true ->
+  tty c = true ->
   md (run c acts) = Waiting g pids w v -> owner (run c acts) = g.
 Proof.
-  intros T A M.
+  intros T M.
   pose proof (run_inv c acts) as H. unfold Inv in H. rewrite M in H.
   assert (G : Given (run c acts)).
   { apply fold_given; auto. unfold Given, init; cbn; auto. }
@@ -216,7 +219,7 @@ Proof.
   destruct (md s) as [|g0 pids w v] eqn:M; auto.
   destruct (next_status (procs (k s))) as [[e ps]|].
   - destruct (wait_body (set_procs (k s) ps) g0 pids w e) as [k' w'].
-    destruct (negb (is_cont e) && (length pids <=? w')%nat).
+    destruct (negb (is_cont e) && (length pids <=? length w')%nat).
     + apply finish_notw.
     + apply IH. unfold NotW in *; cbn. rewrite M in H. exact H.
   - destruct (all_gone (procs (k s))); [apply finish_notw | exact H].
@@ -235,7 +238,7 @@ Proof. unfold NotW, end_of_line; cbn; discriminate. Qed.
 Definition may_fg (g : Z) (a : action) : bool :=
   match a with
   | AFg _ _ => true
-  | ALaunch pids _ _ _ => hd 0 pids =? g
+  | ALaunch pids _ => hd 0 pids =? g
   | _ => false
   end.
 
@@ -267,23 +270,23 @@ Lemma fold_left_app_step c (a b : list action) s :
   fold_left (step c) (a ++ b) s = fold_left (step c) b (fold_left (step c) a s).
 Proof. apply fold_left_app. Qed.
 
-Theorem bg_never_owner c pre pids tc jn post :
+Theorem bg_never_owner c pre pids post :
   hd 0 pids <> c_sh c ->
   md (run c pre) = AtPrompt ->
   forallb (fun a => negb (may_fg (hd 0 pids) a)) post = true ->
-  owner (run c (pre ++ ALaunch pids true tc jn :: post)) <> hd 0 pids.
+  owner (run c (pre ++ ALaunch pids true :: post)) <> hd 0 pids.
 Proof.
   intros NS M NF.
   set (g := hd 0 pids) in *.
-  assert (E : run c (pre ++ ALaunch pids true tc jn :: post)
-              = fold_left (step c) post (step c (run c pre) (ALaunch pids true tc jn))).
+  assert (E : run c (pre ++ ALaunch pids true :: post)
+              = fold_left (step c) post (step c (run c pre) (ALaunch pids true))).
   { unfold run. rewrite fold_left_app. reflexivity. }
-  assert (N0 : NotW g (step c (run c pre) (ALaunch pids true tc jn))).
+  assert (N0 : NotW g (step c (run c pre) (ALaunch pids true))).
   { cbn [step]. unfold typed. rewrite M. unfold launch.
     destruct pids as [|p0 rest]; [unfold NotW; rewrite M; cbn; discriminate | apply eol_notw]. }
   pose proof (fold_notw c g post NF _ N0) as N.
   rewrite <- E in N.
-  destruct (owner_cases c (pre ++ ALaunch pids true tc jn :: post)) as [O|[ps [w [v O]]]].
+  destruct (owner_cases c (pre ++ ALaunch pids true :: post)) as [O|[ps [w [v O]]]].
   - rewrite O. auto.
   - intro Q. apply N. rewrite O. cbn. rewrite Q. reflexivity.
 Qed.
@@ -333,6 +336,9 @@ Qed.
 Lemma job_done_procs k0 g p r : procs (job_done k0 g p r) = procs k0.
 Proof. unfold job_done. destruct (remove_pid (tab k0) g p) as [t [j|]]; reflexivity. Qed.
 
+Lemma member_continued_procs k0 p g : procs (member_continued k0 p g) = procs k0.
+Proof. unfold member_continued. destruct (sh_member_continued (tab k0) p g) as [t [j|]]; reflexivity. Qed.
+
 Lemma member_stopped_procs k0 p g r : procs (member_stopped k0 p g r) = procs k0.
 Proof.
   unfold member_stopped. destruct (sh_mark_job_member_stopped (tab k0) p g) as [t [j|]]; auto.
@@ -357,7 +363,7 @@ Proof.
   unfold poll_pid. destruct (map_get p (m_reap (mps k0))); [rewrite job_done_procs; reflexivity|].
   destruct (map_get p (m_kill (mps k0))); [rewrite job_done_procs; reflexivity|].
   destruct (memZ p (m_stop (mps k0))); [rewrite member_stopped_procs; reflexivity|].
-  destruct (memZ p (m_cont (mps k0))); reflexivity.
+  destruct (memZ p (m_cont (mps k0))); [rewrite member_continued_procs|]; reflexivity.
 Qed.
 
 Lemma poll_job_procs r j : forall k0, procs (poll_job r k0 j) = procs k0.
@@ -386,7 +392,7 @@ Proof.
     destruct (wait_body (set_procs (k s) ps) g pids w e) as [k' w']. cbn in WB.
     assert (E : map pg (procs k') = groups s).
     { rewrite WB. unfold groups. eapply next_status_pg; eauto. }
-    destruct (negb (is_cont e) && (length pids <=? w')%nat).
+    destruct (negb (is_cont e) && (length pids <=? length w')%nat).
     + rewrite finish_groups. exact E.
     + rewrite IH. exact E.
   - destruct (all_gone (procs (k s))); auto. apply finish_groups.
@@ -401,22 +407,18 @@ Qed.
 Lemma eol_groups k0 ow : groups (end_of_line k0 ow) = map pg (procs k0).
 Proof. unfold groups, end_of_line; cbn. apply poll_pg. Qed.
 
-(** the groups a launch creates *)
-Definition new_groups (c : cfg) (pids : list Z) (joined : list bool) : list (Z * Z) :=
-  match pids with
-  | [] => []
-  | p0 :: rest => (p0, p0) :: map pg (later_stages p0 (c_sh c) rest joined)
-  end.
+(** the groups a launch creates: every stage in the group of stage 0 *)
+Definition new_groups (pids : list Z) : list (Z * Z) := map (fun p => (p, hd 0 pids)) pids.
 
-Definition added (c : cfg) (s : st) (a : action) : list (Z * Z) :=
+Definition added (s : st) (a : action) : list (Z * Z) :=
   match a, md s with
-  | ALaunch pids _ _ jn, AtPrompt => new_groups c pids jn
+  | ALaunch pids _, AtPrompt => new_groups pids
   | _, _ => []
   end.
 
 (** no action ever moves a process to another group; only a launch typed at
     the prompt adds processes, and exactly those of [new_groups] *)
-Theorem step_groups c s a : groups (step c s a) = groups s ++ added c s a.
+Theorem step_groups c s a : groups (step c s a) = groups s ++ added s a.
 Proof.
   assert (KN : forall f, (forall ps, map pg (f ps) = map pg ps) -> groups (kernel c s f) = groups s).
   { intros f F. unfold kernel, settle_all. rewrite settle_groups. unfold groups; cbn. apply F. }
@@ -428,7 +430,7 @@ Proof.
     try (rewrite eol_groups; reflexivity).
   - unfold launch, new_groups. destruct pids as [|p0 rest]; [rewrite app_nil_r; reflexivity|].
     destruct bg; [rewrite eol_groups | rewrite enter_wait_groups]; cbn [procs];
-      rewrite map_app; reflexivity.
+      rewrite map_app; unfold stages; rewrite map_map; reflexivity.
   - unfold do_fg. destruct (tab (k s)); [rewrite eol_groups; reflexivity|].
     destruct (find_job _ arg pick) as [j0|]; [|rewrite eol_groups; reflexivity].
     match goal with |- context [if ?b then _ else _] => destruct b end.
@@ -441,67 +443,35 @@ Proof.
     unfold say; cbn [procs]. apply poll_pg.
 Qed.
 
-(** when every later stage wins the setpgid race, a launch is one group led by stage 0 *)
-Lemma later_stages_joined p0 shpg rest : forall jn, forallb (fun b => b) jn = true ->
-  Forall (fun q => snd q = p0) (map pg (later_stages p0 shpg rest jn)).
-Proof.
-  induction rest as [|p r IH]; intros jn J; cbn; constructor.
-  - destruct jn as [|b l]; cbn; auto. cbn in J. apply andb_true_iff in J as [J1 _]. rewrite J1. reflexivity.
-  - apply IH. destruct jn as [|b l]; cbn; auto. cbn in J. apply andb_true_iff in J as [_ J2]. exact J2.
-Qed.
-
-Lemma later_stages_pids p0 shpg rest : forall jn, map fst (map pg (later_stages p0 shpg rest jn)) = rest.
-Proof. induction rest as [|p r IH]; intro jn; cbn; auto. f_equal. apply IH. Qed.
-
-Definition joined_of (a : action) : bool :=
-  match a with ALaunch _ _ _ jn => forallb (fun b => b) jn | _ => true end.
-Definition all_joined (acts : list action) : bool := forallb joined_of acts.
-
 (** every process belongs to a launch of the session and sits in the group of its first stage *)
 Definition led (acts : list action) (q : Z * Z) : Prop :=
-  exists pids bg tc jn, In (ALaunch pids bg tc jn) acts /\ In (fst q) pids /\ snd q = hd 0 pids.
+  exists pids bg, In (ALaunch pids bg) acts /\ In (fst q) pids /\ snd q = hd 0 pids.
 
-Lemma later_led p0 shpg rest : forall jn, forallb (fun b => b) jn = true ->
-  forall q, In q (map pg (later_stages p0 shpg rest jn)) -> In (fst q) rest /\ snd q = p0.
+Lemma added_led s a : Forall (led [a]) (added s a).
 Proof.
-  induction rest as [|p r IH]; intros jn J q I; cbn in I; [contradiction|].
-  destruct I as [I|I].
-  - subst q. cbn. split; auto.
-    destruct jn as [|b l]; cbn; auto. cbn in J. apply andb_true_iff in J as [J1 _]. rewrite J1. reflexivity.
-  - destruct (IH (tl jn)) with (q := q) as [A B]; auto.
-    + destruct jn as [|b l]; cbn; auto. cbn in J. apply andb_true_iff in J as [_ J2]. exact J2.
-    + split; auto. right. exact A.
-Qed.
-
-Lemma added_led c s a : joined_of a = true -> Forall (led [a]) (added c s a).
-Proof.
-  intro J. unfold added. destruct a; try constructor. destruct (md s); [|constructor].
-  unfold new_groups. destruct pids as [|p0 rest]; constructor.
-  - exists (p0 :: rest), bg, tc_ok, joined. cbn. auto.
-  - cbn in J. apply Forall_forall. intros q I.
-    destruct (later_led p0 (c_sh c) rest joined J q I) as [A B].
-    exists (p0 :: rest), bg, tc_ok, joined. cbn. auto.
+  unfold added. destruct a; try constructor. destruct (md s); [|constructor].
+  unfold new_groups. apply Forall_forall. intros q I. apply in_map_iff in I as [p [E I]]. subst q.
+  exists pids, bg. cbn. auto.
 Qed.
 
 Lemma led_mono a b q : led a q -> led (b ++ a) q /\ led (a ++ b) q.
 Proof.
-  intros [pids [bg [tc [jn [I R]]]]]. split; exists pids, bg, tc, jn; split; auto; apply in_or_app; auto.
+  intros [pids [bg [I R]]]. split; exists pids, bg; split; auto; apply in_or_app; auto.
 Qed.
 
 Lemma fold_groups c acts : forall s done,
-  all_joined acts = true -> Forall (led done) (groups s) ->
+  Forall (led done) (groups s) ->
   Forall (led (done ++ acts)) (groups (fold_left (step c) acts s)).
 Proof.
-  induction acts as [|a r IH]; intros s done J H; cbn.
+  induction acts as [|a r IH]; intros s done H; cbn.
   - rewrite app_nil_r. exact H.
-  - cbn in J. apply andb_true_iff in J as [J1 J2].
-    replace (done ++ a :: r) with ((done ++ [a]) ++ r) by (rewrite <- app_assoc; reflexivity).
+  - replace (done ++ a :: r) with ((done ++ [a]) ++ r) by (rewrite <- app_assoc; reflexivity).
     apply IH; auto. rewrite step_groups. apply Forall_app. split.
     + eapply Forall_impl; [|exact H]. intros q L. apply (led_mono done [a] q L).
-    + eapply Forall_impl; [|apply added_led; exact J1]. intros q L. apply (led_mono [a] done q L).
+    + eapply Forall_impl; [|apply added_led]. intros q L. apply (led_mono [a] done q L).
 Qed.
 
-Theorem one_group c acts : all_joined acts = true -> Forall (led acts) (groups (run c acts)).
+Theorem one_group c acts : Forall (led acts) (groups (run c acts)).
 Proof.
-  intro J. change acts with ([] ++ acts) at 1. apply fold_groups; auto. constructor.
+  change acts with ([] ++ acts) at 1. apply fold_groups; auto. constructor.
 Qed.
